@@ -1,4 +1,5 @@
 import DryocVerif.Proofs.ProtectedRec
+import DryocVerif.Proofs.ProtectedMach
 /-
 Helpers for C14 / C15 / C19 on top of the invariant machinery:
 page coverage of `mprotect`, unpacking of `Inv` for one region, runs of tokens.
@@ -55,13 +56,13 @@ theorem good_init (P : Nat) : GoodL P Kernel.init [] where
   led := fun _ => rfl
   albase := ⟨List.Pairwise.nil, fun _ h => by simp [Kernel.init] at h⟩
 
-theorem rec_init (oracle : Nat → Bool) : RecOK (State.init oracle) := by
+theorem rec_init (oracle : Nat → LockAns) : RecOK (State.init oracle) := by
   intro sl h; simp [State.init] at h
 
-theorem inv_init (c : Cfg) (oracle : Nat → Bool) : Inv c (State.init oracle) :=
+theorem inv_init (c : Cfg) (oracle : Nat → LockAns) : Inv c (State.init oracle) :=
   ⟨good_init c.P, rec_init oracle⟩
 
-theorem tight_init (c : Cfg) (oracle : Nat → Bool) : Tight c (State.init oracle) :=
+theorem tight_init (c : Cfg) (oracle : Nat → LockAns) : Tight c (State.init oracle) :=
   fun _ _ => rfl
 
 /-- the invariant does not look at the release log -/
@@ -83,8 +84,12 @@ theorem inv_step {c : Cfg} (hP : 0 < c.P) {s : State} (h : Inv c s) (t : Tok)
     (hz : ¬ ZeroizesProtected s t) : Inv c (step c s t).2 :=
   ⟨invK_stepCore hP (s := resetRel s) h.k h.rcd t hz, rec_step h.rcd t⟩
 
+/-- `Tight` is kept by every token of the repaired model.  In the leaky variant (`c.undo = false`) two things can
+leave a stray lock flag: a `lock` of a non-empty `NoAccess` region (`LocksNoAccess`), and — on ANY region, by any
+token that locks — an oracle answer `failFlagged` (`NoFF` excludes it; every `Bool` oracle satisfies it).
+STATEMENT CHANGED (the oracle is `Nat → LockAns` now): the second disjunct got the conjunct `NoFF s.m`. -/
 theorem tight_step {c : Cfg} (hP : 0 < c.P) {s : State} (h : Inv c s) (ht : Tight c s) (t : Tok)
-    (hno : c.undo = true ∨ ¬ LocksNoAccess s t) : Tight c (step c s t).2 :=
+    (hno : c.undo = true ∨ (¬ LocksNoAccess s t ∧ NoFF s.m)) : Tight c (step c s t).2 :=
   tight_stepCore hP (s := resetRel s) h.k h.rcd ht t hno
 
 /-- no token of the run is a `zeroize` of a non-empty `Protected` region other than `Unlocked` read-write -/
@@ -104,15 +109,17 @@ def NoNALock (c : Cfg) : State → List Tok → Prop
   | _, [] => True
   | s, t :: ts => ¬ LocksNoAccess s t ∧ NoNALock c (step c s t).2 ts
 
+/-- STATEMENT CHANGED (the oracle is `Nat → LockAns` now): the leaky disjunct got the conjunct `NoFF s.m` (the oracle
+never answers `failFlagged`; preserved along the run: `noFF_step`) -/
 theorem tight_runState {c : Cfg} (hP : 0 < c.P) (toks : List Tok) {s : State} (h : Inv c s)
-    (ht : Tight c s) (hz : NoProtZeroize c s toks) (hno : c.undo = true ∨ NoNALock c s toks) :
+    (ht : Tight c s) (hz : NoProtZeroize c s toks) (hno : c.undo = true ∨ (NoNALock c s toks ∧ NoFF s.m)) :
     Tight c (runState c s toks) := by
   induction toks generalizing s with
   | nil => exact ht
   | cons t ts ih =>
     refine ih (inv_step hP h t hz.1) (tight_step hP h ht t ?_) hz.2 ?_
-    · exact hno.imp id (fun h => h.1)
-    · exact hno.imp id (fun h => h.2)
+    · exact hno.imp id (fun h => ⟨h.1.1, h.2⟩)
+    · exact hno.imp id (fun h => ⟨h.1.2, noFF_step h.2 t⟩)
 
 /-- every state met along a run satisfies the invariant -/
 theorem inv_run {c : Cfg} (hP : 0 < c.P) (toks : List Tok) {s : State} (h : Inv c s)
